@@ -7,6 +7,7 @@ package main
 import (
 	"encoding/hex"
 	"fmt"
+	"regexp"
 	"sort"
 	"strings"
 
@@ -20,6 +21,7 @@ import (
 //	E key data    env key=data            P path keep   env PATH=$WORK/path[${:}$PATH]
 //	D id bad      register a Defer        G id neg      [!] exec helper sleep &
 //	O probe   F failing line   K skip   T stop   Z panic in a custom command
+//	N kill (every background command)   Y kill, then wait
 //	I neg key sub [exec:key] sub  /  [!exec:key] sub
 type Action struct {
 	Op   string  `json:"op"`
@@ -39,6 +41,32 @@ type File struct {
 	// with the prefix below are accepted, and the runner looks for /<path> afterwards, reports it and
 	// removes exactly that file.
 	Work bool `json:"work,omitempty"`
+	// Escape: the entry name leaves the work directory (Path is then ignored):
+	//   "up"             ../verif_c04_up_<script>.txt          (lands in the private temporary root)
+	//   "sibling:<name>" ../script-<name>/verif_c04_planted_<script>.txt
+	//   "abs"            <scratch dir of the run>/outside/verif_c04_abs_<script>.txt
+	//   "home"           $HOME/../<scratch dir of the run>/outside/verif_c04_home_<script>.txt
+	// All of them stay inside the scratch directory of the run.
+	Escape string `json:"escape,omitempty"`
+}
+
+var reSibling = regexp.MustCompile(`^sibling:[a-z0-9]{1,20}$`)
+
+// entryName is the name of the entry in the archive text; rundir is the scratch directory of the run.
+func (f *File) entryName(script, rundir string) string {
+	switch {
+	case f.Escape == "up":
+		return "../verif_c04_up_" + script + ".txt"
+	case strings.HasPrefix(f.Escape, "sibling:"):
+		return "../script-" + strings.TrimPrefix(f.Escape, "sibling:") + "/verif_c04_planted_" + script + ".txt"
+	case f.Escape == "abs":
+		return rundir + "/outside/verif_c04_abs_" + script + ".txt"
+	case f.Escape == "home":
+		return "$HOME/.." + rundir + "/outside/verif_c04_home_" + script + ".txt"
+	case f.Work:
+		return "$WORK/" + f.Path
+	}
+	return f.Path
 }
 
 const escapePrefix = "verif_c04_canary_"
@@ -59,7 +87,19 @@ func safeWorkName(p string) bool {
 
 func (b *Batch) validate() error {
 	for _, s := range b.Scripts {
+		for i := 0; i < len(s.Name); i++ {
+			c := s.Name[i]
+			if !(c >= 'a' && c <= 'z' || c >= '0' && c <= '9') || len(s.Name) > 20 {
+				return fmt.Errorf("script name %q refused", s.Name)
+			}
+		}
 		for _, f := range s.Files {
+			if f.Escape != "" {
+				if f.Escape != "up" && f.Escape != "abs" && f.Escape != "home" && !reSibling.MatchString(f.Escape) {
+					return fmt.Errorf("script %s: escape kind %q refused", s.Name, f.Escape)
+				}
+				continue
+			}
 			if f.Work && !safeWorkName(f.Path) {
 				return fmt.Errorf("script %s: entry $WORK/%s refused (only flat %s* names may be $WORK-named)", s.Name, f.Path, escapePrefix)
 			}
@@ -92,14 +132,15 @@ type Script struct {
 }
 
 type Batch struct {
-	Retain  string   `json:"retain,omitempty"` // "" | testwork | workdirroot | flag
-	Verbose bool     `json:"verbose,omitempty"`
-	Procs   int      `json:"procs,omitempty"` // GOMAXPROCS of the child
-	Par     int      `json:"par,omitempty"`   // subtests running at the same time (testing's -parallel)
-	Canary  bool     `json:"canary,omitempty"`
-	Cover   bool     `json:"cover,omitempty"` // set GOCOVERDIR in the host environment
-	NonRoot bool     `json:"nonroot,omitempty"`
-	Scripts []Script `json:"scripts"`
+	Retain          string   `json:"retain,omitempty"` // "" | testwork | workdirroot | flag
+	Verbose         bool     `json:"verbose,omitempty"`
+	Procs           int      `json:"procs,omitempty"` // GOMAXPROCS of the child
+	Par             int      `json:"par,omitempty"`   // subtests running at the same time (testing's -parallel)
+	Canary          bool     `json:"canary,omitempty"`
+	Cover           bool     `json:"cover,omitempty"` // set GOCOVERDIR in the host environment
+	NonRoot         bool     `json:"nonroot,omitempty"`
+	ContinueOnError bool     `json:"continue_on_error,omitempty"`
+	Scripts         []Script `json:"scripts"`
 }
 
 func hx(s string) string { return common.Hex([]byte(s)) }
@@ -132,7 +173,7 @@ func (a *Action) modelTokens(out *[]string) {
 		*out = append(*out, "P", pathTok(a.Path), b01(a.Flag))
 	case "D", "G":
 		*out = append(*out, a.Op, fmt.Sprint(a.ID), b01(a.Flag))
-	case "O", "F", "K", "T", "Z":
+	case "O", "F", "K", "T", "Z", "N", "Y":
 		*out = append(*out, a.Op)
 	case "I":
 		*out = append(*out, "I", b01(a.Flag), hx(a.Key))
@@ -144,17 +185,26 @@ func (a *Action) modelTokens(out *[]string) {
 
 func (s *Script) modelTokens(out *[]string) {
 	*out = append(*out, "S", b01(s.SetupErr), "A", fmt.Sprint(len(s.Files)))
-	for _, f := range s.Files {
+	esc := "-"
+	for i, f := range s.Files {
+		if f.Escape != "" {
+			if esc == "-" {
+				esc = fmt.Sprint(i)
+			}
+			*out = append(*out, "escaping-entry", hx(fileData(f.Data)))
+			continue
+		}
 		*out = append(*out, pathTok(f.Path), hx(fileData(f.Data)))
 	}
 	var wn []string
 	for _, f := range s.Files {
-		if f.Work {
+		if f.Work && f.Escape == "" {
 			wn = append(wn, pathTok(f.Path))
 		}
 	}
 	*out = append(*out, "Q", fmt.Sprint(len(wn)))
 	*out = append(*out, wn...)
+	*out = append(*out, "X", esc)
 	*out = append(*out, "V", fmt.Sprint(len(s.Adds)))
 	for _, kv := range s.Adds {
 		if strings.HasPrefix(kv.V, "$WORK") {
@@ -176,7 +226,7 @@ func (s *Script) modelTokens(out *[]string) {
 // modelRequest renders the batch for the extracted model. hostEnv is the environment of the
 // process that calls RunT, hostTab the answers of a PATH search over host directories.
 func (b *Batch) modelRequest(isRoot bool, hostEnv []string, hostTab map[[2]string]bool, helperName string, sched []int) string {
-	out := []string{"batch", b01(b.Retain != ""), "1", "0", b01(isRoot), "1", "H", fmt.Sprint(len(hostEnv))}
+	out := []string{"batch", b01(b.Retain != ""), "1", "0", b01(isRoot), "1", "1", b01(b.ContinueOnError), "H", fmt.Sprint(len(hostEnv))}
 	for _, kv := range hostEnv {
 		k, v, _ := strings.Cut(kv, "=")
 		out = append(out, hx(k), hx(v))
@@ -269,6 +319,10 @@ func (a *Action) lines() []string {
 		return []string{"stop"}
 	case "Z":
 		return []string{"boom"}
+	case "N":
+		return []string{"kill"}
+	case "Y":
+		return []string{"kill", "wait"}
 	case "I":
 		sub := a.Sub.lines()
 		neg := ""
@@ -285,26 +339,29 @@ func (a *Action) singleLine() bool {
 	switch a.Op {
 	case "M":
 		return !(a.Flag && a.Path != "")
-	case "G":
+	case "G", "Y":
 		return false
 	}
 	return true
 }
 
-func (s *Script) archive() []byte {
+func (s *Script) archive() []byte { return s.archiveIn("/nonexistent-run-dir", false) }
+
+// archiveIn renders the script; with gated, a `gate` line precedes every action (the harness then
+// decides when each line of each script runs).
+func (s *Script) archiveIn(rundir string, gated bool) []byte {
 	var b strings.Builder
 	b.WriteString("# generated\n")
 	for i := range s.Body {
+		if gated {
+			b.WriteString("gate\n")
+		}
 		for _, l := range s.Body[i].lines() {
 			b.WriteString(l + "\n")
 		}
 	}
 	for _, f := range s.Files {
-		if f.Work {
-			b.WriteString("-- $WORK/" + f.Path + " --\n")
-		} else {
-			b.WriteString("-- " + f.Path + " --\n")
-		}
+		b.WriteString("-- " + f.entryName(s.Name, rundir) + " --\n")
 		b.WriteString(f.Data)
 		if f.Data != "" && !strings.HasSuffix(f.Data, "\n") {
 			b.WriteString("\n")
@@ -329,7 +386,7 @@ var progPool = []string{"sh", "nosuchprog-zz", "mytool", "helper", "b.txt"}
 
 func genAction(r *common.RNG, st *genState, allowEnd bool, depth int) Action {
 	for {
-		switch k := r.Intn(22); {
+		switch k := r.Intn(23); {
 		case k < 3:
 			return Action{Op: "O"}
 		case k < 5:
@@ -353,12 +410,22 @@ func genAction(r *common.RNG, st *genState, allowEnd bool, depth int) Action {
 			st.nDefer++
 			return Action{Op: "D", ID: st.nDefer, Flag: r.Chance(1, 12)}
 		case k < 17:
-			if st.nBg >= 2 || depth > 0 {
+			if st.nBg >= 2 || depth > 0 || st.killed {
 				continue
 			}
 			st.nBg++
 			return Action{Op: "G", ID: st.nBg, Flag: r.Chance(1, 3)}
-		case k < 20:
+		case k < 18:
+			// at most one kill per script: signalling a process that has been reaped is an error
+			if st.killed || st.nBg == 0 {
+				continue
+			}
+			st.killed = true
+			if depth > 0 || r.Chance(1, 2) {
+				return Action{Op: "N"}
+			}
+			return Action{Op: "Y"}
+		case k < 21:
 			if depth >= 2 {
 				continue
 			}
@@ -380,6 +447,7 @@ type genState struct {
 	pathSet bool
 	nDefer  int
 	nBg     int
+	killed  bool
 }
 
 func genScript(r *common.RNG, name string) Script {
@@ -430,9 +498,24 @@ func genBatch(r *common.RNG, canNonRoot bool) Batch {
 	b.Canary = true
 	b.Cover = r.Chance(1, 2)
 	b.NonRoot = canNonRoot && r.Chance(2, 3)
+	b.ContinueOnError = r.Chance(1, 4)
 	n := 2 + r.Intn(7)
 	for i := 0; i < n; i++ {
 		b.Scripts = append(b.Scripts, genScript(r, fmt.Sprintf("s%d", i)))
+	}
+	// now and then an archive entry whose name leaves the work directory
+	for i := range b.Scripts {
+		if r.Chance(1, 10) {
+			kind := common.Pick(r, []string{"up", "abs", "home", "sibling"})
+			if kind == "sibling" {
+				kind = fmt.Sprintf("sibling:s%d", (i+1+r.Intn(n-1))%n)
+			}
+			f := File{Escape: kind, Data: "escaping\n"}
+			at := r.Intn(len(b.Scripts[i].Files) + 1)
+			fs := append([]File{}, b.Scripts[i].Files[:at]...)
+			fs = append(fs, f)
+			b.Scripts[i].Files = append(fs, b.Scripts[i].Files[at:]...)
+		}
 	}
 	return b
 }
